@@ -9,6 +9,7 @@ pub fn bad_menu() -> Vec<(String, BadSpec)> {
     let dep = TxSpec::Deposit { pk: 1, ticker: "ordi".into(), amount: "0x1".into() };
     let raw = TxSpec::Transact { signer: 1, nonce: 0, tgt: Tgt::s(), data: crate::asm::s_set(2, 2, 0, [0; 4]), len: DEFAULT_LEN };
     let park = TxSpec::Transact { signer: 1, nonce: 1, tgt: Tgt::s(), data: crate::asm::s_set(2, 2, 0, [0; 4]), len: DEFAULT_LEN };
+    let gap = TxSpec::Transact { signer: 0, nonce: 0, tgt: Tgt::s(), data: crate::asm::s_set(1, 4, 0, [0; 4]), len: DEFAULT_LEN };
     vec![
         ("idx-1".into(), BadSpec::TxIdx { tx: tx.clone(), idx: IdxSel::Minus1 }),
         ("idx+1".into(), BadSpec::TxIdx { tx: tx.clone(), idx: IdxSel::Plus1 }),
@@ -16,6 +17,13 @@ pub fn bad_menu() -> Vec<(String, BadSpec)> {
         ("deposit-idx+1".into(), BadSpec::TxIdx { tx: dep, idx: IdxSel::Plus1 }),
         ("transact-idx+1".into(), BadSpec::TxIdx { tx: raw, idx: IdxSel::Plus1 }),
         ("parked-idx+1".into(), BadSpec::TxIdx { tx: park, idx: IdxSel::Plus1 }),
+        // the transaction that would fill the gap in front of signer 0's waiting nonces, refused for a protocol
+        // reason: the waiting ones must still be waiting afterwards
+        ("gapfill-idx+1".into(), BadSpec::TxIdx { tx: gap.clone(), idx: IdxSel::Plus1 }),
+        ("gapfill-ts".into(), BadSpec::TxTimestamp { tx: gap.clone() }),
+        ("gapfill-hash".into(), BadSpec::TxHash { tx: gap.clone() }),
+        ("gapfill-existing-hash".into(), BadSpec::TxExistingHash { tx: gap, height: 1 }),
+        ("deposit-existing-hash".into(), BadSpec::TxExistingHash { tx: TxSpec::Deposit { pk: 1, ticker: "ordi".into(), amount: "0x1".into() }, height: 1 }),
         ("tx-ts".into(), BadSpec::TxTimestamp { tx: tx.clone() }),
         ("tx-hash".into(), BadSpec::TxHash { tx: tx.clone() }),
         ("tx-existing-hash".into(), BadSpec::TxExistingHash { tx: tx.clone(), height: 1 }),
